@@ -127,6 +127,8 @@ type liveConn struct {
 	SndBuf  int   `json:"sndbuf"`
 	RcvBuf  int   `json:"rcvbuf"`
 	PaceUS  int   `json:"pace_us"`
+	OneStep bool  `json:"one_step,omitempty"`  // the server's handler takes one read per invocation (the loop re-invokes it)
+	CloseAW bool  `json:"close_after_write,omitempty"` // the client closes right after its last Flush (send-and-close)
 }
 
 type liveScn struct {
@@ -159,6 +161,11 @@ func genLiveScn(t *rapid.T, big bool) liveScn {
 		c.SndBuf = rapid.SampledFrom([]int{0, 2048, 4096, 16384, 65536}).Draw(t, "sndbuf")
 		c.RcvBuf = rapid.SampledFrom([]int{0, 2048, 4096, 16384, 65536}).Draw(t, "rcvbuf")
 		c.PaceUS = rapid.SampledFrom([]int{0, 0, 0, 20, 200}).Draw(t, "pace")
+		c.OneStep = rapid.IntRange(0, 2).Draw(t, "onestep") == 0
+		c.CloseAW = rapid.IntRange(0, 2).Draw(t, "closeAfterWrite") == 0
+		if c.CloseAW {
+			c.Back = 0
+		}
 		s.Conns = append(s.Conns, c)
 	}
 	return s
@@ -380,6 +387,9 @@ func runLive(s liveScn) (sig, msg string) {
 				conn.Reader().Skip(conn.Reader().Len())
 				break
 			}
+			if s.Conns[st.idx].OneStep {
+				break // one frame per call: whatever is left must be offered again
+			}
 		}
 		return nil
 	}
@@ -424,6 +434,9 @@ func runLive(s liveScn) (sig, msg string) {
 				cs.werr = err
 			} else {
 				cs.werr = writeStream(conn, liveUpBase+i*(16<<20), c.Total, c.Chunks, c.APIs)
+				if cs.werr == nil && c.CloseAW {
+					conn.Close() // everything flushed before this Close must still be offered to the server's handler
+				}
 			}
 			atomic.StoreInt32(&cs.wdone, 1)
 		}()
@@ -536,13 +549,16 @@ func liveTest(t *testing.T, prop, slot string, checks func() int) {
 		st.eval()
 		if sig != "" {
 			// a failure under real threads may not reproduce every time: state the rate
-			fails := 1
-			for i := 0; i < 9; i++ {
+			fails, tries := 1, 10
+			if sig == "stall" {
+				tries = 2 // every stalled run costs the full no-progress bound
+			}
+			for i := 1; i < tries; i++ {
 				if s2, _ := runLive(s); s2 != "" {
 					fails++
 				}
 			}
-			msg = fmt.Sprintf("%s (reproduced %d/10 times)", msg, fails)
+			msg = fmt.Sprintf("%s (reproduced %d/%d times)", msg, fails, tries)
 			vReport(vViolation{Property: prop, Slot: slot, Signature: sig, Message: msg, Replay: map[string]interface{}{"scenario": s}})
 			t.Fatalf("%s violated [%s]: %s", prop, sig, msg)
 		}
